@@ -87,7 +87,10 @@ func (t *tbl) Call(ip *absint.Interp, site ssa.CallInstruction, args []absint.Va
 			if h, ok := t.callee[impl]; ok {
 				return h(ip, args), true
 			}
-			if ip.InScope == nil || ip.InScope(impl) {
+			if h, ok := t.ext[impl.String()]; ok && impl.Blocks == nil {
+				return h(ip, args), true // a narrowed view of an external collaborator
+			}
+			if impl.Blocks != nil && (ip.InScope == nil || ip.InScope(impl)) {
 				return ip.CallFunction(impl, args, nil), true
 			}
 		}
@@ -368,6 +371,31 @@ func valueOfType(t types.Type, pick func(types.Type) absint.Value, depth int) ab
 		return tok
 	}
 	return nil
+}
+
+// callbackFrame prepares the interpretation of a callback handed to an iterator: a function literal is run with its
+// captured variables bound to cells; a method value (bound method wrapper) stands for its method, run with the bound
+// receiver - typically a parameter object, built field by field - as first argument.
+func callbackFrame(cb *ssa.Function, pick func(types.Type) absint.Value) (fn *ssa.Function, recv, bind []absint.Value) {
+	if m := resolveWrapper(cb); m != cb && m != nil {
+		v := valueOfType(m.Params[0].Type(), pick, 0)
+		if v == nil {
+			v = absint.NewTok("recv", "receiver")
+		}
+		return m, []absint.Value{v}, nil
+	}
+	for _, fv := range cb.FreeVars {
+		et := fv.Type()
+		if pt, ok := et.Underlying().(*types.Pointer); ok {
+			et = pt.Elem()
+		}
+		v := valueOfType(et, pick, 0)
+		if v == nil {
+			v = absint.NewTok("captured:"+fv.Name(), "captured")
+		}
+		bind = append(bind, &absint.Cell{V: v})
+	}
+	return cb, nil, bind
 }
 
 // layoutArgs lays abstract values out along fn's parameters (receiver included).
